@@ -94,7 +94,8 @@ sink_put_octet(Sink *sink, const unsigned char data)
 }
 
 static inline ssize_t
-source_adapt(ByteSource source, void *driver, void *buf, const size_t n)
+source_adapt(ByteSource source, void *driver, void *buf, const size_t n,
+             const bool atmost)
 {
     unsigned char *data = buf;
     size_t rest = n;
@@ -103,7 +104,8 @@ source_adapt(ByteSource source, void *driver, void *buf, const size_t n)
         if (rc == -EINTR || rc == -EAGAIN) {
             continue;
         } else if (rc < 0) {
-            return (ssize_t)rc;
+            /* At-most reads report the octets they already took. */
+            return (atmost && rest < n) ? (ssize_t)(n - rest) : (ssize_t)rc;
         }
         rest -= rc;
     }
@@ -112,10 +114,10 @@ source_adapt(ByteSource source, void *driver, void *buf, const size_t n)
 }
 
 static inline ssize_t
-once_source_get_chunk(Source *source, void *buf, size_t n)
+once_source_get_chunk(Source *source, void *buf, size_t n, const bool atmost)
 {
     return source->kind == DATA_KIND_OCTET
-        ? source_adapt(source->source.octet, source->driver, buf, n)
+        ? source_adapt(source->source.octet, source->driver, buf, n, atmost)
         : source->source.chunk(source->driver, buf, n);
 }
 
@@ -129,7 +131,7 @@ source_get_chunk(Source *source, void *buf, size_t n)
     size_t rest = n;
     while (rest > 0) {
         const ssize_t get = once_source_get_chunk(
-            source, (unsigned char *)buf + (n - rest), rest);
+            source, (unsigned char *)buf + (n - rest), rest, false);
         if (get == -EINTR || get == -EAGAIN) {
             continue;
         } else if (get < 0) {
@@ -144,7 +146,7 @@ source_get_chunk(Source *source, void *buf, size_t n)
 ssize_t
 source_get_chunk_atmost(Source *source, void *buf, const size_t n)
 {
-    return once_source_get_chunk(source, buf, n);
+    return once_source_get_chunk(source, buf, n, true);
 }
 
 static inline ssize_t
